@@ -460,6 +460,10 @@ func defProbe() {
 	for _, r := range ranges {
 		add(r.src, r.src)
 	}
+	// a range is a new container: changing it in place must not change ob
+	add("list part after changing the values of ob[0 .. 9] and ob[1 ..] in place",
+		"(function (ob) {\n r = ob[0 .. 9]\n r.Reverse!()\n r.Add('zz' at: 0)\n if r.Size() > 1\n  r[1] = 'zz'\n r.Sort!()\n"+
+			" r2 = ob[1 ..]\n if r2.Size() > 0\n  r2[0] = 'zz'\n return ob.Values(list:).Copy()\n })(ob)")
 	add("for x in ob", "it")
 	var sb strings.Builder
 	sb.WriteString("function (ob) {\n it = Object()\n for x in ob\n  it.Add(x)\n return Object(")
@@ -672,6 +676,9 @@ func probe(th **core.Thread, ob core.Value, m *mob, which string) string {
 		if msg := expectList(modelRange(m.list, r)); msg != "" {
 			return msg
 		}
+	}
+	if msg := expectList(m.list); msg != "" {
+		return msg
 	}
 	if msg := expectListThenSet(m.list, nvals); msg != "" {
 		return msg
